@@ -296,6 +296,14 @@ def make_unhashable(obj):
     return obj
 
 
+_CONFIG_CACHE = {}
+_USER_CONFIG_CLS = {}
+
+
+def reset_run_state():
+    _CONFIG_CACHE.clear()
+
+
 def build_config(cfg, sampler=None):
     L = lib()
     sm = cfg.get("sampling_method", "dynamic")
@@ -306,12 +314,29 @@ def build_config(cfg, sampler=None):
             make_unhashable(sampler)
     vals = (int(cfg.get("nb_samples", 10)), cfg.get("bootstrap_method", "bca"), sm, cfg.get("stratified_sampling"),
             bool(cfg.get("smoothing", False)), cfg.get("ratio"))
+    key = None
+    if isinstance(sm, str):
+        # the caller keeps one configuration object per distinct configuration and hands it to every call of the run
+        # that uses it (also on other objects): whatever a call writes into it is seen by the next
+        key = json.dumps(vals)
+        if key in _CONFIG_CACHE:
+            return _CONFIG_CACHE[key]
+    cls = L.BootstrapConfig
+    if vals[0] % 5 == 2:
+        # a user subclass of the configuration class (chosen by content)
+        cls = _USER_CONFIG_CLS.get(L.BootstrapConfig)
+        if cls is None:
+            cls = _USER_CONFIG_CLS[L.BootstrapConfig] = type("UserBootstrapConfig", (L.BootstrapConfig,), {})
     # the documented field order is part of the public interface: every third configuration (chosen by its content,
     # so that it is a function of the scenario) is built positionally
     if (vals[0] + len(str(vals[1])) + len(str(vals[3]))) % 3 == 0:
-        return L.BootstrapConfig(*vals)
-    return L.BootstrapConfig(nb_samples=vals[0], bootstrap_method=vals[1], sampling_method=vals[2], stratified_sampling=vals[3],
-                             smoothing=vals[4], ratio=vals[5])
+        out = cls(*vals)
+    else:
+        out = cls(nb_samples=vals[0], bootstrap_method=vals[1], sampling_method=vals[2], stratified_sampling=vals[3],
+                  smoothing=vals[4], ratio=vals[5])
+    if key is not None:
+        _CONFIG_CACHE[key] = out
+    return out
 
 
 # --------------------------------------------------------------------------
